@@ -9,7 +9,7 @@ use crate::util::{guard, par_map, Kv};
 pub fn meta(_ctx: &Ctx) -> Meta {
     Meta {
         rule: "block layer lists {[dense],[dense,dense]} (flat) and {[conv],[conv,conv],[deconv],[conv,deconv],[conv,pool]} (spatial, shape-preserving) x activations {linear, ReLU, tanh} x loops L in 1..4 (1..9 for three of the block lists) x all 4 skip-flag combinations x all 5 accumulations x followed by a dense layer or not x fed by the network input or a preceding layer (dense -> block of spatial layers included) x 2 data valuations (exact small-integer data, inputs multiples of 60 for mean; the second valuation of linear / ReLU blocks scaled by 2^-20) plus the blank sample (all-zero input) for every block, plus identity blocks on inputs near +-3e38 (the mean of such values is representable, their sum is not), plus blocks NEAR A FIXED POINT of their repeated map (x -> g x + (1-g), g in {2, 1/2}, started 1 / 8 ulp from the fixed point, L in {8,16,22}, all flags and accumulations). Oracles: a block without skips equals, bit for bit, the plain network in which its layer list is written out L times; reference interpreter rep_1=f(x), rep_i=f(comb(rep_{i-1},[x])) with input skips, out=comb(rep_L,[rep_1..rep_{L-1}]) with output skips. Non-trivial = reference output has >= 2 distinct non-zero entries".into(),
-        bound: "L <= 4, block lists of <= 2 layers, planes 3x3 and 3x4; complete product".into(),
+        bound: "L <= 4 (9 for three block lists), block lists of <= 2 layers, planes 3x3 and 3x4; complete product (thorough: L in 1..10, 12, 16 for every block list, block lists of 3 and 4 layers, a block fed by another block)".into(),
         exhaustive: true,
         assumptions: vec!["bit-exact agreement is counted; the verdict uses tolerance 2e-6*max|reference| for linear/ReLU blocks (division by 3 is not exact) and 5e-4*max|reference| for tanh blocks".into()],
     }
@@ -39,9 +39,18 @@ pub fn nets(thorough: bool) -> Vec<Net> {
         // a preceding shape-preserving convolution, and a dense layer in front of a block of spatial layers
         settings.push((Dims::Chw(1, 3, 3), vec![L::Conv { f: 1, k: (3, 3), s: (1, 1), p: (1, 1), d: (1, 1), act: Act::Linear, drop: None }], vec![conv(1)]));
         settings.push((Dims::Flat(4), vec![L::Dense { n: 9, act: Act::Linear, bias: false, drop: None }], vec![conv(1)]));
+        if thorough {
+            // deeper bound: block lists of three and four layers, and two blocks in a row
+            settings.push((Dims::Flat(4), vec![], vec![d(5), d(3), d(4)]));
+            settings.push((Dims::Flat(4), vec![], vec![d(4), d(4), d(4), d(4)]));
+            settings.push((Dims::Chw(1, 3, 3), vec![], vec![conv(2), conv(2), conv(1)]));
+            settings.push((Dims::Chw(1, 3, 3), vec![], vec![conv(2), deconv(2), conv(1)]));
+            settings.push((Dims::Chw(1, 3, 3), vec![], vec![conv_up(1), pool.clone(), conv(1)]));
+            settings.push((Dims::Flat(4), vec![L::Fb { layers: vec![d(4)], loops: 2, inskips: true, outskips: true, acc: Acc::Add }], vec![d(4)]));
+        }
         for (si, (input, before, list)) in settings.into_iter().enumerate() {
             // beyond the small bound: L = 5..9 for the dense lists and the first convolutional one
-            let loop_counts: Vec<usize> = if thorough || si < 2 || si == 3 { (1..=9).collect() } else { (1..=4).collect() };
+            let loop_counts: Vec<usize> = if thorough { (1..=10).chain([12usize, 16]).collect() } else if si < 2 || si == 3 { (1..=9).collect() } else { (1..=4).collect() };
             for loops in loop_counts {
                 for inskips in [false, true] {
                     for outskips in [false, true] {
